@@ -243,8 +243,23 @@ TaskStep(k) == \/ AcqRootR(k) \/ AcqIfR(k) \/ AnnounceIfW(k) \/ GetIfW(k)
 AllDone == \A k \in Calls : pc[k] = "done"
 Done == sent = N /\ AllDone /\ UNCHANGED vars      \* explicit final stuttering: any other stuck state is a deadlock
 
+\* one named action per kind of step (so that TLC's coverage shows none of them is vacuous)
+DoClientReply == \E k \in Calls : ClientReply(k)
+DoAcqRootR    == \E k \in Calls : AcqRootR(k)
+DoAcqIfR      == \E k \in Calls : AcqIfR(k)
+DoAnnounceIfW == \E k \in Calls : AnnounceIfW(k)
+DoGetIfW      == \E k \in Calls : GetIfW(k)
+DoHStart      == \E k \in Calls : HStart(k)
+DoHYield      == \E k \in Calls : HYield(k)
+DoHEmit       == \E k \in Calls : HEmit(k)
+DoHWantWrite  == \E k \in Calls : HWantWrite(k)
+DoHAnnounceW  == \E k \in Calls : HAnnounceW(k)
+DoHWrote      == \E k \in Calls : HWrote(k)
+DoFinish      == \E k \in Calls : Finish(k)
+
 Next == \/ CreateOS \/ ClientSend \/ ReaderDeliver \/ DispInit \/ DispTake
-        \/ \E k \in Calls : TaskStep(k) \/ ClientReply(k)
+        \/ DoClientReply \/ DoAcqRootR \/ DoAcqIfR \/ DoAnnounceIfW \/ DoGetIfW
+        \/ DoHStart \/ DoHYield \/ DoHEmit \/ DoHWantWrite \/ DoHAnnounceW \/ DoHWrote \/ DoFinish
         \/ Done
 
 Fairness == WF_vars(Next)     \* (Init is InitWith(c) for the configurations chosen in mc/ or read from a trace)
